@@ -1,16 +1,109 @@
-"""Scanner.DEFAULT_EXCLUDES -> lean/CodeLimit/Gen/Excludes.lean
+"""Scanner.generate_exclude_spec -> lean/CodeLimit/Gen/Excludes.lean   (v2: observed, not shape-matched)
 
-Reads `codelimit/common/Scanner.py` with `ast` (the module is not imported) and emits the built-in
-exclusion patterns as a Lean constant, plus the pattern style handed to `PathSpec.from_lines` and
-the order in which `generate_exclude_spec` concatenates its sources. Anything that is not the
-expected tiny shape raises Refuse (a broken tie).
-"""
-import ast
+The REAL `generate_exclude_spec(root)` of the tree given on the command line is run in a fresh interpreter with
+`PathSpec.from_lines` replaced by a recorder and with sentinel inputs: `Configuration.exclude` holds two marker
+lines, the root's `.gitignore` two others. The recorded call gives the pattern style and the assembled line list; the
+lines that are no markers are the built-in patterns (in order), the positions of the marker groups give the order of
+the sources. The function is run twice (the built-in list must not grow) and once without configured lines and
+without a `.gitignore` (the result must be the built-in list alone). Anything else is a refusal (a broken tie).
+v1 read the `ast` of Scanner.py and refused behaviour-preserving rewrites (context manager, `+=`, split literal)."""
+import json
 import os
+import subprocess
+import sys
+import tempfile
 
 
 class Refuse(Exception):
     pass
+
+
+_PROBE = r"""
+import json, os, sys, tempfile
+repo = sys.argv[1]
+sys.path.insert(0, repo)
+import codelimit
+if not os.path.abspath(codelimit.__file__).startswith(os.path.abspath(repo) + os.sep):
+    print(json.dumps({"refuse": "codelimit resolves to %s, not to %s" % (codelimit.__file__, repo)})); sys.exit(0)
+from pathlib import Path
+from codelimit.common import Scanner
+from codelimit.common.Configuration import Configuration
+calls = []
+class Rec:
+    @staticmethod
+    def from_lines(*a, **k):
+        calls.append((list(a), dict(k)))
+        return ("spec", len(calls))
+Scanner.PathSpec = Rec
+out = {}
+def run(conf, git):
+    del calls[:]
+    d = tempfile.mkdtemp(prefix="clx_")
+    try:
+        if git is not None:
+            with open(os.path.join(d, ".gitignore"), "w") as f:
+                f.write("\n".join(git) + "\n")
+        Configuration.exclude = list(conf)
+        r = Scanner.generate_exclude_spec(Path(d))
+        return [(list(map(lambda x: x if isinstance(x, str) else list(x), a)), k) for a, k in calls], repr(r)
+    finally:
+        Configuration.exclude = []
+        import shutil; shutil.rmtree(d, ignore_errors=True)
+out["full1"] = run(["<<CONF-1>>", "<<CONF-2>>"], ["<<GIT-1>>", "<<GIT-2>>"])
+out["full2"] = run(["<<CONF-1>>", "<<CONF-2>>"], ["<<GIT-1>>", "<<GIT-2>>"])
+out["bare"] = run([], None)
+out["const"] = list(getattr(Scanner, "DEFAULT_EXCLUDES", []))
+print(json.dumps(out))
+"""
+
+
+def _observe(repo):
+    p = subprocess.run([sys.executable, "-c", _PROBE, repo], capture_output=True, text=True, timeout=120,
+                       env={k: v for k, v in os.environ.items() if k != "PYTHONPATH"})
+    if p.returncode != 0:
+        raise Refuse("generate_exclude_spec could not be run: %s" % (p.stderr.strip().splitlines() or ["?"])[-1])
+    out = json.loads(p.stdout.strip().splitlines()[-1])
+    if "refuse" in out:
+        raise Refuse(out["refuse"])
+    return out
+
+
+def _analyse(out):
+    def one(rec, what):
+        calls, _r = rec
+        if len(calls) != 1:
+            raise Refuse("generate_exclude_spec (%s) calls PathSpec.from_lines %d times" % (what, len(calls)))
+        args, kw = calls[0]
+        if kw or len(args) != 2 or not isinstance(args[0], str) or not isinstance(args[1], list) or \
+                not all(isinstance(x, str) for x in args[1]):
+            raise Refuse("generate_exclude_spec (%s): unexpected call PathSpec.from_lines(%r, %r)" % (what, args, kw))
+        return args[0], args[1]
+    style, lines = one(out["full1"], "first run")
+    style2, lines2 = one(out["full2"], "second run")
+    style3, bare = one(out["bare"], "no configuration")
+    if (style, lines) != (style2, lines2):
+        raise Refuse("generate_exclude_spec is not repeatable: the assembled list changes between two calls")
+    if style3 != style:
+        raise Refuse("generate_exclude_spec: the pattern style depends on the configuration")
+    marks = {"<<CONF-1>>": "configured", "<<CONF-2>>": "configured", "<<GIT-1>>": "gitignore", "<<GIT-2>>": "gitignore"}
+    groups = []          # run-length groups of sources in the assembled list
+    for ln in lines:
+        src = marks.get(ln, "builtin")
+        if not groups or groups[-1][0] != src:
+            groups.append([src, []])
+        groups[-1][1].append(ln)
+    order = [g[0] for g in groups]
+    if sorted(order) != ["builtin", "configured", "gitignore"]:
+        raise Refuse("generate_exclude_spec: sources are interleaved or missing: %s" % order)
+    for src, ls in groups:
+        if src == "configured" and ls != ["<<CONF-1>>", "<<CONF-2>>"] or src == "gitignore" and ls != ["<<GIT-1>>", "<<GIT-2>>"]:
+            raise Refuse("generate_exclude_spec: the %s lines are reordered, repeated or dropped: %s" % (src, ls))
+    builtin = [g[1] for g in groups if g[0] == "builtin"][0]
+    if bare != builtin:
+        raise Refuse("generate_exclude_spec: without configuration and .gitignore the list is not the built-in list")
+    if out.get("const") and list(out["const"]) != builtin:
+        raise Refuse("Scanner.DEFAULT_EXCLUDES differs from the built-in lines generate_exclude_spec uses")
+    return builtin, order, style
 
 
 def _lean_str(s):
@@ -27,78 +120,10 @@ def _lean_str(s):
     return '"' + "".join(out) + '"'
 
 
-def _sources(fn, path):
-    """the order of the sources concatenated by `generate_exclude_spec`, read off its body:
-    `X = DEFAULT_EXCLUDES.copy()`, `X.extend(Configuration.exclude)`, `g = _read_gitignore(root)`,
-    `if g: X.extend(g)`, `return PathSpec.from_lines(<style>, X)`"""
-    order = []
-    style = None
-    var = None
-    git_var = None
-    for st in fn.body:
-        src = ast.unparse(st)
-        if isinstance(st, ast.Assign) and len(st.targets) == 1 and isinstance(st.targets[0], ast.Name):
-            rhs = ast.unparse(st.value)
-            if rhs == "DEFAULT_EXCLUDES.copy()" and var is None:
-                var = st.targets[0].id
-                order.append("builtin")
-                continue
-            if rhs.startswith("_read_gitignore(") and len(st.value.args) == 1 and \
-                    ast.unparse(st.value.args[0]) == fn.args.args[0].arg:
-                git_var = st.targets[0].id
-                continue
-        if isinstance(st, ast.Expr) and var and src == "%s.extend(Configuration.exclude)" % var:
-            order.append("configured")
-            continue
-        if isinstance(st, ast.If) and git_var and ast.unparse(st.test) == git_var and not st.orelse \
-                and len(st.body) == 1 and ast.unparse(st.body[0]) == "%s.extend(%s)" % (var, git_var):
-            order.append("gitignore")
-            continue
-        if isinstance(st, ast.Return) and isinstance(st.value, ast.Call) and \
-                ast.unparse(st.value.func) == "PathSpec.from_lines" and len(st.value.args) == 2 and \
-                isinstance(st.value.args[0], ast.Constant) and isinstance(st.value.args[0].value, str) and \
-                ast.unparse(st.value.args[1]) == var and not st.value.keywords:
-            style = st.value.args[0].value
-            continue
-        raise Refuse("generate_exclude_spec: unexpected statement `%s` at %s:%s" % (src, path, st.lineno))
-    if style is None:
-        raise Refuse("generate_exclude_spec: no `return PathSpec.from_lines(<style>, ...)` in %s" % path)
-    return order, style
-
-
 def translate(repo):
-    path = os.path.join(repo, "codelimit", "common", "Scanner.py")
-    tree = ast.parse(open(path, encoding="utf-8").read(), path)
-    found = None
-    fn = None
-    for st in tree.body:
-        if isinstance(st, ast.Assign) and any(isinstance(t, ast.Name) and t.id == "DEFAULT_EXCLUDES" for t in st.targets):
-            if found is not None:
-                raise Refuse("DEFAULT_EXCLUDES is assigned more than once in %s" % path)
-            if len(st.targets) != 1 or not isinstance(st.value, ast.List):
-                raise Refuse("DEFAULT_EXCLUDES is not a plain list literal at %s:%s" % (path, st.lineno))
-            items = []
-            for e in st.value.elts:
-                if not (isinstance(e, ast.Constant) and isinstance(e.value, str)):
-                    raise Refuse("DEFAULT_EXCLUDES has a non-literal element `%s` at %s:%s" % (ast.unparse(e), path, e.lineno))
-                items.append(e.value)
-            found = items
-        elif isinstance(st, (ast.AugAssign, ast.AnnAssign)) and "DEFAULT_EXCLUDES" in ast.unparse(st.target):
-            raise Refuse("DEFAULT_EXCLUDES is modified at %s:%s" % (path, st.lineno))
-        elif isinstance(st, ast.FunctionDef) and st.name == "generate_exclude_spec":
-            fn = st
-    if found is None:
-        raise Refuse("no module-level DEFAULT_EXCLUDES in %s" % path)
-    if fn is None:
-        raise Refuse("no generate_exclude_spec in %s" % path)
-    # the constant must not be mutated anywhere else in the module
-    for node in ast.walk(tree):
-        if isinstance(node, ast.Call) and isinstance(node.func, ast.Attribute) and \
-                ast.unparse(node.func.value) == "DEFAULT_EXCLUDES" and node.func.attr != "copy":
-            raise Refuse("DEFAULT_EXCLUDES.%s(...) at %s:%s" % (node.func.attr, path, node.lineno))
-    order, style = _sources(fn, path)
+    found, order, style = _analyse(_observe(repo))
     lines = [
-        "/-! GENERATED by translator/excludes.py from codelimit/common/Scanner.py - do not edit.",
+        "/-! GENERATED by translator/excludes.py from the running codelimit.common.Scanner.generate_exclude_spec - do not edit.",
         "The built-in exclusion patterns, and how `generate_exclude_spec` assembles the pattern list. -/",
         "namespace CL.Gen.Excludes",
         "",
